@@ -227,7 +227,71 @@ def aliasing(ctx, kind="rk4", d=2, rhs="identity"):
             ctx.prove("step is the scheme's Taylor polynomial for dx/dt = x", ctx.eq(xn[j], x0[j] * amp))
 
 
+def rk4_through_pbm(ctx, kind="rk4", n=2):
+    """the iterator through the real solver wrappers of a model whose step-size correction is the population balance's
+    (GrainGrowthModel.getdXdt / correctdXdt -> PopulationBalanceModel.getdXdtEuler / correctdXdtEuler): when no face needs limiting, the
+    accepted state is X + dt * sum_i b_i k_i of the stage slopes k_i the model returned (the iterator's weighted combination),
+    not the slope of one stage"""
+    from kawin.precipitation.coupling.GrainGrowth import GrainGrowthModel
+    it, ns, _ = ITER[kind]
+    pr = probe(kind)
+    if pr is None:
+        ctx.prove("iterator evaluates the model once per nominal stage (concrete probe)", False)
+        return
+    c, a, b = pr
+    m = GrainGrowthModel(1e-10, 1e-9, n, 1, 10 * n)
+    b0 = ctx.real("b0", (0.5, 1.0)); w = ctx.real("w", (0.1, 0.5)); ctx.assume(b0 > 0); ctx.assume(w > 0)
+    m.pbm.min = b0; m.pbm.max = b0 + n * w; m.pbm.bins = n
+    m.pbm.reset(False)
+    X0 = ctx.reals("N", n, (2.0, 5.0))
+    for i in range(n):
+        ctx.assume(X0[i] > 0)
+    m.pbm.PSD = X0
+    gs = [ctx.reals("g%d" % k, n + 1, (0.01, 0.1)) for k in range(ns)]
+    for k in range(ns):
+        for i in range(n + 1):
+            ctx.assume(gs[k][i] > 0)           # growth only: every face flux goes to the next larger class
+    calls = {"n": 0}
+
+    def fake_growth(x):
+        k = calls["n"]; calls["n"] += 1
+        return gs[min(k, ns - 1)]
+    m.grainGrowth = fake_growth                # the growth law is not the subject: stage k sees the symbolic field g_k
+    m.constrainedGrowth = lambda g, z=0: g     # no drag
+    m._z = 0
+    dt = ctx.real("dt", (0.01, 0.1)); ctx.assume(dt > 0); ctx.assume(dt < 1e29)
+    slopes = []
+    orig_get = m.getdXdt
+
+    fluxes = []
+
+    def get(t, x):
+        d = orig_get(t, x)
+        slopes.append([d[0][i] * 1 for i in range(n)])
+        fluxes.append([m.pbm._netFlux[i] * 1 for i in range(n + 1)])
+        return d
+    s = DESolver(ITER[kind][2])
+    s.setdXdtFunctions(get, m.correctdXdt, lambda dXdt: dt, m.flattenX, m.unflattenX)
+    s._dtmin = 0.0; s._dtmax = 1e30
+    s._X0 = [X0]
+    t = ctx.real("t", (0.0, 1.0))
+    x0 = [X0[i] * 1 for i in range(n)]
+    xn, dtu = it(s._getdXdt, t, m.flattenX([X0]), s._updateX)
+    ctx.prove("model evaluated once per stage", len(slopes) == ns)
+    if len(slopes) != ns:
+        return
+    # nothing needed limiting: dt times any face flux of the LAST evaluated stage stays below the content of its donor class
+    nf = fluxes[-1]
+    unlimited = ctx.all([ctx.all([nf[i + 1] * dt <= x0[i], -nf[i] * dt <= x0[i]]) for i in range(n)])
+    for j in range(n):
+        ref = x0[j] + dt * sum((b[k].numerator * slopes[k][j] / b[k].denominator for k in range(ns) if b[k] != 0), 0.0 * dt)
+        ctx.prove("accepted state is X + dt * (weighted sum of the stage slopes) when no face is limited", ctx.implies(unlimited, ctx.eq(xn[j], ref)))
+
+
 HARNESSES = [
+    Harness("C06.rk4_through_pbm", rk4_through_pbm, functions=_F, opts={"ob_timeout": 30.0}, budget={"quick": 200.0, "thorough": 900.0},
+            assumptions=["growth fields > 0 (no sign branches); the growth law is replaced by one symbolic field per stage; real arithmetic"],
+            bounds={"classes": "n"}, params={"quick": [{"kind": "rk4", "n": 2}, {"kind": "euler", "n": 2}], "thorough": [{"kind": "rk4", "n": 3}]}),
     Harness("C06.aliasing", aliasing, functions=[ExplicitEulerIterator, RK4Iterator],
             assumptions=["the iterator is called directly (public function); updateX is X + dxdt*dt; the right-hand side returns its argument, a view of it, or a reused buffer",
                          "for the reused buffer only the state vector is examined: a function that overwrites its own earlier results is outside what an iterator can be asked to survive"],
